@@ -7,13 +7,15 @@ Deciding part (props/C18sym.py, rsx + z3 on the real code of crates/s3s-fs/src/s
      true; verify_upload_id answers true exactly when the stored access key equals the caller's;
   M  assembly: a successful completion writes the listed parts 1..n in order into the file that is renamed onto the object;
   S  side files follow the object (user metadata written or removed by every successful object write and by delete_object); fs::copy is
-     never called with source == destination.
+     never called with source == destination;
+  L  listings: list_objects_v2 + normalize_path on a bounded symbolic directory tree (names, prefix, marker symbolic; key order = an
+     uninterpreted total order decided by z3): exactly the keys with the prefix after the marker, ascending, each once.
 Every symbolic finding is confirmed on the real backend (verif-replay fsprobes: fixed mini-scenarios and the solver's range witnesses)
 before it is reported.  Validation only (not solver-decided): random operation histories against an in-memory model
 (verif-replay fsmodel: two buckets, five keys, sizes around the 4 KiB read buffer, every Range form, copies, listings with prefix /
 start-after, multipart uploads with two identities); a deviation there is real and is reported under its own key.
 
-Outside the symbolic claim: listings and bucket operations (directory walks over a real tree), whole histories (the family samples them),
+Outside the symbolic claim: listings beyond the tree bound and with a custom delimiter, bucket operations, whole histories (the family samples them),
 last-modified times, checksums stored in the internal-info file, what a real SDK decodes (C03)."""
 import json
 import os
@@ -63,6 +65,9 @@ def run(rep, tier):
              ("V", "verify_upload_id answers true exactly when the stored access key (present or null) equals the caller's (present or anonymous)", C18sym.verify_fn),
              ("M", "assembly: every successful completion (0-2 listed parts) writes part 1..n in order into the temporary file renamed onto the object; "
                    "each listed part number equals its position", C18sym.part_order),
+             ("L", "listings: for every directory tree of the bound (<= 2 entries per directory, depth <= 2, up to 4 files; names, prefix and marker symbolic; "
+                   "keys ordered by an uninterpreted total order) list_objects_v2 returns exactly the '/'-joined keys that have the prefix and lie after "
+                   "the marker, each once, in ascending order, with KeyCount = their number", C18sym.listings),
              ("S", "side files follow the object: every successful put / copy / completed upload writes or removes the object's user-metadata file, "
                    "delete_object removes it, fs::copy never has source == destination", C18sym.side_files))
     for tag, name, fn in parts:
@@ -109,7 +114,10 @@ def run(rep, tier):
             confirmed, native = bool(o and o.get("deviates")), o
         elif key in probes:
             confirmed, native = bool(probes[key].get("deviates")), probes[key]
-        for c in FAMILY_CONFIRMS.get(key, []):
+        fam_classes = list(FAMILY_CONFIRMS.get(key, []))
+        if key.startswith("listing:"):
+            fam_classes += [c for c in classes if c.startswith("list_objects_v2:")]
+        for c in fam_classes:
             if c in classes:
                 used.add(c)
                 if not confirmed:
@@ -130,5 +138,8 @@ def run(rep, tier):
               "directory listings of <= 2 entries in abort_multipart_upload")
     rep.assume("the effect-trace file-system model and hooks of C19 (props/C19sym.py); seek(End(-n)) fails when n exceeds the length; "
                "numeric_cast panics on overflow; serde_json round-trips the stored access key")
-    rep.out("listings, bucket operations and whole histories symbolically (native family only); last-modified times; stored checksums; "
+    rep.assume("listing model: Path values are component lists, the display of the bucket-relative path is the '/'-joined key, the prefix filter is the "
+               "predicate `key text starts with prefix text` (uninterpreted, the same symbol in code and reference), str::cmp is a total order on distinct keys; "
+               "validated by the history family (prefixes that end inside a path component, markers equal to / between keys)")
+    rep.out("listings of larger trees and with a custom delimiter, bucket operations and whole histories symbolically (native family only); last-modified times; stored checksums; "
             "keys where one object is a directory prefix of another (excluded by the property)")
